@@ -44,10 +44,16 @@ impl Typstyle {
         let doc = if let Some(markup) = node.cast() {
             printer.convert_markup(ctx, markup)
         } else if let Some(expr) = node.cast() {
-            if matches!(
-                node.parent_kind(),
-                Some(SyntaxKind::Markup | SyntaxKind::Math)
-            ) {
+            // Embedded code: a child of markup or math, or the hashed operand of an attachment,
+            // fraction or root (the cover search reports code mode exactly after a hash in math).
+            let embedded = match node.parent_kind() {
+                Some(SyntaxKind::Markup | SyntaxKind::Math) => true,
+                Some(SyntaxKind::MathAttach | SyntaxKind::MathFrac | SyntaxKind::MathRoot) => {
+                    mode.is_code()
+                }
+                _ => false,
+            };
+            if embedded {
                 printer.convert_embedded_expr(ctx, expr)
             } else {
                 printer.convert_expr(ctx, expr)
